@@ -1,6 +1,6 @@
 (* FiltAddr.v — what the existence filter [?(@ steps)] selects, from the path text: the elements of an array (in index
    order) and the members of an object (in ascending key order) from which the steps reach at least one value. *)
-From JP Require Import Peg Grammar Slice Text Tree Actions Json Eval WF Spec SortFacts EvalInv1 EvalInv4 EvalTop EndToEnd Codec KeyDefs KeyParse IdxParse SliceParse UnionParse WildParse RecParse ChainParse SpacePath FunParse AggParse FiltParse ChainAddr FunAddr AggAddr SpecRootFree.
+From JP Require Import Peg Grammar Slice Text Tree Actions Json Eval WF Spec SortFacts EvalInv1 EvalInv4 EvalTop EndToEnd Codec KeyDefs KeyParse IdxParse SliceParse UnionParse WildParse RecParse ChainParse SpacePath FunParse AggParse FiltParse CmpParse NegFilt ChainAddr FunAddr AggAddr SpecRootFree.
 From Coq Require Import Lia Permutation.
 Open Scope list_scope.
 
@@ -290,5 +290,12 @@ Section FiltAddr.
                            (sorted_keys m) (sorted_key_present m)).
       rewrite flat_map_flat_map. apply flat_map_ext'. intros k. destruct (lookup m k) as [x|]; [|reflexivity].
       destruct (h x); [cbn [flat_map]; rewrite app_nil_r|]; reflexivity.
+  Qed.
+  Lemma sp_neg isteps b next root p v : forallb rstep_ok isteps = true -> small v ->
+    sp (Node (neg_kind cfg isteps) b next) root (Some p, v) =
+    flat_map (ChainAddr.fwd ffun afun regex_match b next root) (navp (fun x => negb (reaches isteps x)) (p, v)).
+  Proof.
+    intros Hs Hsm. unfold neg_kind. apply sp_kfilter; [|exact Hsm]. intros vals Hv.
+    change (holds (QNot ?q) root vals) with (map negb (holds q root vals)). rewrite (holds_exists isteps root vals Hs Hv), map_map. reflexivity.
   Qed.
 End FiltAddr.
